@@ -58,8 +58,8 @@ for r in json.load(open(V + "/seeded/MATRIX.json")):
     st = m.get("status") or {}
     if isinstance(st, str):
         st = {"state": st}
-    if (st.get("state") or "").split(":")[0] in ("neutralised", "obsolete"):
-        continue
+    if (st.get("state") or "") in ("neutralised", "obsolete"):
+        continue   # set by hand, with a note (an automatic "obsolete: no longer applies" is recomputed)
     if not r.get("applies", True):
         st = dict(st, state="obsolete: no longer applies to the current tree")
     elif r.get("caught"):
